@@ -266,7 +266,7 @@ func main() {
 	if run.Thorough() {
 		maxLen = 5
 	}
-	run.Set("rule", "All sequences of length 1..maxLen over the private-key alphabet {a, b, r-a, 1, r-1} (contains every permutation, duplicates, inverse pairs and sums equal to the identity). Every sequence is run under 4 policies for the internal representation of the public-key objects (affine from PublicKey(); projective with Z != 1 from RemoveBLSPublicKeys; two mixes). Per sequence: every set partition of the positions as a nesting (Agg of each block, then Agg of the results; singleton blocks go through a one-element Agg) plus left and right folds, for private keys, public keys and signatures under 4 (message, tag) contexts; the signature of the aggregated private key; RemoveBLSPublicKeys(Agg(all), B) for every subset B of the positions (incl. empty and everything), given as individual keys and as one pre-aggregated key; identity encodings / IsBLSSignatureIdentity / Equals(IdentityBLSPublicKey) on cancelling sequences; Verify of the aggregate under the aggregate key. Error shapes: empty lists, malformed signature of 7 kinds at each position, off-group signature at each position (accepted by design), ECDSA key at each position. Oracle: sum of scalars mod r, [sum]g2 and [sum]H(m) in math/big, compared as bytes through the c0||c1 codec. A case is distinct/non-trivial per (sequence, nesting, object kind) and per (sequence, removed subset).")
+	run.Set("rule", "All sequences of length 1..maxLen over the private-key alphabet {a, b, r-a, 1, r-1} (contains every permutation, duplicates, inverse pairs and sums equal to the identity). Every sequence is run under 4 policies for the internal representation of the public-key objects (affine from PublicKey(); projective with Z != 1 from RemoveBLSPublicKeys; two mixes). Per sequence: every set partition of the positions as a nesting (Agg of each block, then Agg of the results; singleton blocks go through a one-element Agg) plus left and right folds, for private keys, public keys and signatures under 4 (message, tag) contexts; the signature of the aggregated private key; RemoveBLSPublicKeys(Agg(all), B) for every subset B of the positions (incl. empty and everything), given as individual keys and as one pre-aggregated key; identity encodings / IsBLSSignatureIdentity / Equals(IdentityBLSPublicKey) on cancelling sequences; Verify of the aggregate under the aggregate key. Long lists: lengths 2^k-1, 2^k, 2^k+1 for k=3..9 (thorough 10) and 100, 200, 300 for all five operations incl. nested halves and a malformed signature at the first/middle/last position. Error shapes: empty lists, malformed signature of 7 kinds at each position, off-group signature at each position (accepted by design), ECDSA key at each position. Oracle: sum of scalars mod r, [sum]g2 and [sum]H(m) in math/big, compared as bytes through the c0||c1 codec. A case is distinct/non-trivial per (sequence, nesting, object kind) and per (sequence, removed subset).")
 	run.Set("max_sequence_length", maxLen)
 	run.Set("alphabet", []string{"a", "b", "r-a", "1", "r-1"})
 
@@ -573,6 +573,12 @@ func main() {
 	run.Sample(replay(mid, map[string]any{"kind": "sequence x all partitions/folds x all removal subsets", "partitions": len(parts[len(mid.seq)])}))
 	run.Sample(replay(cases[7], map[string]any{"kind": "cancelling pair", "expected_public_key": ev.Hex(idEnc)}))
 
+	// long lists: every length 2^k-1, 2^k, 2^k+1 up to 1025 (quick 513) - internal batching, chunking
+	// or tree splitting in the C layer has its boundaries at such lengths. The list cycles through the
+	// alphabet with a length-dependent rotation; private keys, public keys (affine and projective
+	// mixed), signatures; one malformed signature at the first, a middle and the last position.
+	longLists(r, run.Thorough())
+
 	// error shapes
 	errShapes(a)
 
@@ -690,4 +696,114 @@ func errShapes(a *big.Int) {
 	}
 	run.Add("evaluations", 1)
 	run.Sample(map[string]any{"kind": "error shape", "malformed_signature": ev.Hex(malformed["not-on-curve"]), "position": 1, "length": 3})
+}
+
+
+func longLists(r *big.Int, thorough bool) {
+	var lens []int
+	maxK := 9
+	if thorough {
+		maxK = 10
+	}
+	seen := map[int]bool{}
+	for k := 3; k <= maxK; k++ {
+		for _, d := range []int{-1, 0, 1} {
+			if L := 1<<uint(k) + d; !seen[L] {
+				seen[L] = true
+				lens = append(lens, L)
+			}
+		}
+	}
+	lens = append(lens, 100, 200, 300)
+	run.Set("long_list_lengths", lens)
+	idPK := crypto.IdentityBLSPublicKey()
+	_ = idPK
+	ev.Par(len(lens), func(li int) {
+		L := lens[li]
+		seq := make([]int, L)
+		sum := new(big.Int)
+		for i := range seq {
+			seq[i] = (i*7 + L) % len(syms)
+			sum.Add(sum, syms[seq[i]].k)
+		}
+		sum.Mod(sum, r)
+		fail := func(key, what string, extra map[string]any) {
+			if extra == nil {
+				extra = map[string]any{}
+			}
+			extra["list_length"] = L
+			extra["list_rule"] = "position i holds alphabet symbol (7*i + L) mod 5 of {a, b, r-a, 1, r-1}"
+			run.Violation(fmt.Sprintf("%s:len=%d", key, L), fmt.Sprintf("%s (list of %d entries)", what, L), extra)
+		}
+		var lsk []crypto.PrivateKey
+		var lpk []crypto.PublicKey
+		for i, x := range seq {
+			lsk = append(lsk, syms[x].sk)
+			if i%3 == 1 {
+				lpk = append(lpk, syms[x].pkj)
+			} else {
+				lpk = append(lpk, syms[x].pk)
+			}
+		}
+		wantPK := refPK(sum)
+		if sk, err := crypto.AggregateBLSPrivateKeys(lsk); err != nil || !bytes.Equal(sk.Encode(), refbls.ScalarBytes(sum)) {
+			fail("long:private:sum-mismatch", fmt.Sprintf("aggregated private key is not the sum of the scalars (err=%v)", err), nil)
+		}
+		pk, err := crypto.AggregateBLSPublicKeys(lpk)
+		if err != nil || !bytes.Equal(pk.Encode(), wantPK) {
+			fail("long:public:sum-mismatch", fmt.Sprintf("aggregated public key is not [sum]g2 (err=%v)", err), nil)
+		}
+		run.Add("evaluations", 2)
+		for ci := range ctxs {
+			var ls []crypto.Signature
+			for _, x := range seq {
+				ls = append(ls, syms[x].sigs[ci])
+			}
+			want := refSig(ci, sum)
+			got, err := crypto.AggregateBLSSignatures(ls)
+			run.Add("evaluations", 1)
+			if err != nil || !bytes.Equal(got, want) {
+				fail("long:signature:sum-mismatch", fmt.Sprintf("aggregated signature is not [sum]H(m) (err=%v)", err), map[string]any{"context": ctxs[ci].name, "got": ev.Hex(got), "expected": ev.Hex(want)})
+			}
+			// nested in two halves and in chunks of 8 must give the same bytes
+			h1, e1 := crypto.AggregateBLSSignatures(ls[:L/2])
+			h2, e2 := crypto.AggregateBLSSignatures(ls[L/2:])
+			if e1 == nil && e2 == nil {
+				if n2, err := crypto.AggregateBLSSignatures([]crypto.Signature{h1, h2}); err != nil || !bytes.Equal(n2, want) {
+					fail("long:signature:nested-halves-mismatch", "Agg(Agg(first half), Agg(second half)) differs from [sum]H(m)", map[string]any{"context": ctxs[ci].name})
+				}
+			}
+			if ci == 0 && pk != nil {
+				ok, err := crypto.VerifyBLSSignatureOneMessage(lpk, want, ctxs[ci].msg, crypto.NewExpandMsgXOFKMAC128(ctxs[ci].tag))
+				run.Add("evaluations", 1)
+				if err != nil || ok != (sum.Sign() != 0) {
+					fail("long:verify-one-message", fmt.Sprintf("VerifyBLSSignatureOneMessage over the list = (%v,%v), expected %v", ok, err, sum.Sign() != 0), nil)
+				}
+				// one malformed signature at the first / a middle / the last position
+				for _, pos := range []int{0, L / 2, L - 1} {
+					bad := append([]crypto.Signature{}, ls...)
+					b := append(crypto.Signature{}, ls[pos]...)
+					b[0] &^= 0x80 // compression bit cleared
+					bad[pos] = b
+					run.Add("evaluations", 1)
+					if g, err := crypto.AggregateBLSSignatures(bad); err == nil || g != nil {
+						fail("long:signature:malformed-entry-accepted", fmt.Sprintf("a malformed signature at position %d is not refused", pos), map[string]any{"position": pos})
+					}
+				}
+				// removing the second half from the aggregate gives the aggregate of the first half
+				if rest, err := crypto.RemoveBLSPublicKeys(pk, lpk[L/2:]); err == nil {
+					sa := new(big.Int)
+					for _, x := range seq[:L/2] {
+						sa.Add(sa, syms[x].k)
+					}
+					if !bytes.Equal(rest.Encode(), refPK(sa.Mod(sa, r))) {
+						fail("long:remove:mismatch", "RemoveBLSPublicKeys(Agg(all), second half) is not Agg(first half)", nil)
+					}
+				} else {
+					fail("long:remove:error", err.Error(), nil)
+				}
+			}
+		}
+		run.Distinct(fmt.Sprintf("long/%d", L))
+	})
 }
